@@ -266,6 +266,28 @@ def production_cases(rep, tier):
             if 'abc' in toks:
                 # every plain name written as a quoted name that needs its quotes: the tree must carry the name, the text must keep the quotes
                 variants.append(('quoted', ' '.join('`a b`' if t == 'abc' else t for t in toks)))
+            if p.name in p.prod:
+                # a production that mentions its own nonterminal, applied twice, with every plain name distinct (abc, abd, abe ...): the order in which
+                # the repeated part is accumulated by the action must be the order the printer writes it in
+                try:
+                    ctx_ = d.contexts()
+                    me_ = d.min_expansions()
+                    pre_, suf_ = ctx_[p.name]
+                    inner = [t for s_ in p.prod for t in me_[s_]]
+                    i_rec = list(p.prod).index(p.name)
+                    kinds2 = pre_ + [t for j, s_ in enumerate(p.prod) for t in (inner if j == i_rec else me_[s_])] + suf_
+                    text2 = d.text_for(kinds2) if len(kinds2) <= 80 else None
+                except Exception:
+                    text2 = None
+                if text2:
+                    k_ = [0]
+
+                    def fresh_name(tok):
+                        if tok != 'abc':
+                            return tok
+                        k_[0] += 1
+                        return 'ab' + 'cdefghijklmnopqrstuvwxyz'[(k_[0] - 1) % 24]
+                    variants.append(('twice', ' '.join(fresh_name(t) for t in text2.split())))
             for tag, sql2 in variants:
                 n += 1
                 try:
@@ -275,7 +297,7 @@ def production_cases(rep, tier):
                 if r2:
                     cid = f'C01.prod.{dname}.{p.name}:{" ".join(p.prod)}'[:140] + f'.{tag}'
                     if not any(b.id == cid for b in rep.bounded):
-                        rep.add_bounded(Bounded(cid, False, sql2, r2, 'same tree and string', bound='one shortest sentence per production; variants: integer literals set to 0, tokens spread over indented lines'))
+                        rep.add_bounded(Bounded(cid, False, sql2, r2, 'same tree and string', bound='one shortest sentence per production; variants: integer literals set to 0, tokens spread over indented lines, recursive productions applied twice with distinct names'))
         for sql in corpus.test_strings():
             n += 1
             try:
